@@ -394,6 +394,14 @@ func (l Loop) IterationFacts(base Cuts) []Fact {
 			}
 		}
 		fs := Between(l.Header, lt, cuts)
+		// the latch's own branch towards the header is part of the completed iteration
+		if iff, ok := lastIf(lt); ok && len(lt.Succs) == 2 && lt.Succs[0] != lt.Succs[1] {
+			for k, s := range lt.Succs {
+				if s == l.Header {
+					fs = dedup(append(fs, expand(iff.Cond, k == 0, lt, base, 0)...))
+				}
+			}
+		}
 		if i == 0 {
 			acc = fs
 		} else {
